@@ -603,12 +603,16 @@ func (p *Process) StartWith(ctx context.Context, element schema.FlowNodeInterfac
 	}
 	switch eventNode := flowNode.(type) {
 	case *startEvent:
-		eventNode.Trigger(ctx)
-
 		// StartAll cease flow monitor
-		verifhook.Point("process.started")
+		//
+		// The monitor subscribes to the traces before the start event is
+		// triggered: otherwise the start event's flow trace can be emitted
+		// before the subscription and the instance is never seen to complete.
 		sender := p.tracer.RegisterSender()
-		go p.ceaseFlowMonitor(p.subTracer)(ctx, sender)
+		monitor := p.ceaseFlowMonitor(p.subTracer)
+		eventNode.Trigger(ctx)
+		verifhook.Point("process.started")
+		go monitor(ctx, sender)
 		p.tracer.Send(InstantiationTrace{InstanceId: p.id})
 
 	case *throwEvent:
